@@ -88,7 +88,7 @@ Proof.
     apply IHhs.
     + apply gk_join; [apply gk_id|exact IHb].
     + apply (gk_comp (an b)); assumption.
-  - apply gk_id.
+  - intros k. apply gk_id.
   - intros F Acc HF HA. exact HA.
   - intros ty IHty nm hb IHhb rest IHrest F Acc HF HA.
     change (gk (fun s => an_h rest (F s) (join (Acc s) (an hb (bind_opt_a nm (an ty (F s))))))).
@@ -177,7 +177,7 @@ Proof.
     assert (Hh : sub (join s (an b s)) (join t (an b t))) by (apply join_mono; assumption).
     apply subl_app; [apply IHb; exact Hst|]. apply subl_app; [apply IHhs; exact Hh|].
     apply subl_app; [apply IHe; exact Hb|]. apply IHf. apply an_h_mono; [exact Hh|apply an_mono, Hb].
-  - intros s t r _ a H; exact H.
+  - intros k s t r _ a H; exact H.
   - intros s t r _ a H; exact H.
   - intros ty IHty nm hb IHhb rest IHrest s t r Hst.
     apply subl_app; [apply IHty; exact Hst|]. apply subl_app; [|apply IHrest; exact Hst].
